@@ -408,7 +408,14 @@ func (d *HeaderFooterDetector) findRepeatingPatterns(candidates []candidate, pag
 		minOccurrences = 2
 	}
 
-	for normalizedText, group := range groups {
+	groupKeys := make([]string, 0, len(groups))
+	for normalizedText := range groups {
+		groupKeys = append(groupKeys, normalizedText)
+	}
+	sort.Strings(groupKeys)
+
+	for _, normalizedText := range groupKeys {
+		group := groups[normalizedText]
 		// Skip very short text that isn't a page number
 		// Single letters/characters are likely fragments of larger text
 		if len(normalizedText) <= 2 && !isPageNumberPattern(normalizedText) {
@@ -461,7 +468,7 @@ func (d *HeaderFooterDetector) findRepeatingPatterns(candidates []candidate, pag
 	}
 
 	// Sort by confidence (highest first)
-	sort.Slice(regions, func(i, j int) bool {
+	sort.SliceStable(regions, func(i, j int) bool {
 		return regions[i].Confidence > regions[j].Confidence
 	})
 
